@@ -57,6 +57,8 @@ pub enum E2<'a> {
 pub trait UnitProxy {
     async fn do_nothing(&mut self) -> zlink_core::Result<Result<(), E1>>;
     async fn with_arg(&mut self, a: u32) -> zlink_core::Result<Result<(), E1>>;
+    #[zlink(more)]
+    async fn watch(&mut self) -> zlink_core::Result<impl futures_util::Stream<Item = zlink_core::Result<Result<(), E1>>>>;
 }
 
 // ------------------------------------------------------------------ helpers
@@ -356,6 +358,36 @@ fn spelling_cases(stats: &mut Stats) {
             stats.cases += 1;
             ev(json!({"ev":"spelling","site":"derive_unit","name":"Only(borrowed enum)","form":form,"order":ord,"ok":ok}));
             // proxy methods without outputs
+            {
+                // a streaming method without outputs: a continuing reply then the final one
+                let t = match p {
+                    None => "{\"continues\":true}\u{0}{}".to_string(),
+                    Some(p) if first => format!("{{\"parameters\":{p},\"continues\":true}}\u{0}{{\"parameters\":{p},\"continues\":false}}"),
+                    Some(p) => format!("{{\"continues\":true,\"parameters\":{p}}}\u{0}{{\"parameters\":{p}}}"),
+                };
+                let wire = new_wire(0);
+                wire.borrow_mut().log_reads = false;
+                wire.borrow_mut().log_writes = false;
+                let mut b = t.clone().into_bytes();
+                b.push(0);
+                wire.borrow_mut().inb.push_back(Some(b));
+                let mut conn = Connection::new(Sock(wire.clone()));
+                let ok = {
+                    use futures_util::StreamExt;
+                    match block_on(conn.watch()) {
+                        Ok(stream) => {
+                            let mut stream = std::pin::pin!(stream);
+                            let a = block_on(stream.next());
+                            let b = block_on(stream.next());
+                            let c = block_on(stream.next());
+                            matches!(a, Some(Ok(Ok(())))) && matches!(b, Some(Ok(Ok(())))) && c.is_none()
+                        }
+                        Err(_) => false,
+                    }
+                };
+                stats.cases += 1;
+                ev(json!({"ev":"spelling","site":"proxy_unit_stream","name":"watch","form":form,"order":ord,"ok":ok}));
+            }
             for which in ["do_nothing", "with_arg"] {
                 let t = match p {
                     None => "{}".to_string(),
